@@ -1,5 +1,6 @@
 """
 C09 close race — a reader waiting in recv()/recv_into() while ANOTHER task closes the transport, then the peer's stream is cut.
+(Second scenario at the end of the file, `run_sendrace`: aclose() while another task's send_all() is parked in the wrapped transport.)
 
   closerace   {"kind":"closerace","role":"client"|"server","tls":"1.2"|"1.3","recs":[sizes],"sc":bool,"method":"recv"|"recv_into",
                "order":"parked"|"late","hold":n,"hold_extra":k,"cut_in":"gate"|"rec"|"cn"|"none","cut_rec":i,"cut_k":k,
@@ -315,4 +316,201 @@ def run_race(case: dict) -> tuple[list[str], dict[str, Any]]:
         cn = "partial"
     lines.append(f"marks hs_end={m['hs_end']} rec_ends={','.join(map(str, m['rec_ends'])) or '-'} gate={t.gate()} cut={t.cut} "
                  f"cn_start={m['cn_start']} cn_end={m['cn_end']} total={m['total']} delivered={d} parks={t.park_count} cn={cn}")
+    return lines, {}
+
+
+# ------------------------------------------------------------------------------------------------------------------------
+# aclose() while another task's send_all() is parked in the wrapped transport (backpressure)
+# ------------------------------------------------------------------------------------------------------------------------
+
+class SendGateTransport(e9.CutTransport):
+    """CutTransport whose next `send_all` can be PARKED (backpressure: the peer is slow to read; the bytes are accepted when
+    `release_send()` is called, the call fails with OSError if the transport is closed under it), and whose parked `recv_into`
+    wakes up as soon as the peer has produced something (the peer is driven synchronously: it reacts to what it is fed)."""
+
+    def __init__(self, peer: e9.Peer, frag_seed: int, *, max_frag: int = 4096) -> None:
+        super().__init__(peer, None, frag_seed, max_frag=max_frag, eof_after_peer=False)
+        self.armed = False
+        self.send_parked: asyncio.Future | None = None
+        self.phase = "open"
+        self.calls: list[list[Any]] = []        # [phase when the call began, bytes, "begun" | "done" | "failed"]
+
+    def send_is_parked(self) -> bool:
+        return self.send_parked is not None and not self.send_parked.done()
+
+    def release_send(self) -> None:
+        if self.send_is_parked():
+            self.send_parked.set_result(None)             # type: ignore[union-attr]
+
+    async def send_all(self, data) -> None:
+        if self.closing:
+            self.log.append("t send closed")
+            raise OSError(9, "transport closed")
+        data = bytes(data)
+        entry: list[Any] = [self.phase, data, "begun"]
+        self.calls.append(entry)
+        self.log.append(f"t send {len(data)}")
+        if self.armed:
+            self.armed = False
+            self.log.append("t send park")
+            fut = asyncio.get_running_loop().create_future()
+            self.send_parked = fut
+            try:
+                await fut
+            except BaseException:
+                entry[2] = "failed"
+                raise
+            finally:
+                self.send_parked = None
+        self.sent += data
+        self.sent_chunks.append(data)
+        self.peer.feed(data)
+        entry[2] = "done"
+        self.peer.pump()
+        if self._parked is not None and not self._parked.done() and len(self.peer.stream) > self.delivered:
+            self._parked.set_result("more")
+        await asyncio.sleep(0)
+
+    async def aclose(self) -> None:
+        if self.send_is_parked():
+            self.send_parked.set_exception(OSError(9, "transport closed"))       # type: ignore[union-attr]
+        await super().aclose()
+
+    async def recv_into(self, buffer) -> int:
+        while True:
+            if self.closing:
+                self.log.append("t recv closed")
+                raise OSError(9, "transport closed")
+            self.peer.pump()
+            avail = len(self.peer.stream) - self.delivered
+            if avail > 0:
+                with memoryview(buffer) as mv:
+                    mv = mv.cast("B") if mv.itemsize != 1 else mv
+                    n = self._pick(min(avail, mv.nbytes))
+                    mv[:n] = self.peer.stream[self.delivered:self.delivered + n]
+                self.delivered += n
+                self.log.append(f"t recv {n}")
+                await asyncio.sleep(0)
+                return n
+            self.log.append("t recv park")
+            fut = asyncio.get_running_loop().create_future()
+            self._parked = fut
+            try:
+                await fut            # "more" (the peer produced output) | OSError set by aclose()
+            finally:
+                self._parked = None
+
+
+def send_payload(i: int, n: int) -> bytes:
+    return bytes(((i * 53 + j * 7 + 3) % 251) + 1 for j in range(n))
+
+
+def run_sendrace(case: dict) -> tuple[list[str], dict[str, Any]]:
+    """closesend {"kind":"closesend","role","tls","sc","recs":[…read completely first],"senders":1|2,"size":n,"size2":n,
+                  "release":"after"|"never","delay":turns,"frag","max_frag","shutdown_timeout"}
+    Task S1 calls send_all(<size bytes>): the wrapped transport's send_all PARKS (S1 owns the TLS transport's send lock); with
+    senders=2 task S2 calls send_all(<size2 bytes>) and queues behind it.  Then task C calls aclose().  `delay` loop turns later
+    the backpressure ends (release=after: the parked send completes) or never does (the shutdown timeout must end the close).
+    The peer (notify=False) only ANSWERS a close_notify: it waits for ours.
+    lines: hs ok ; send-parked 0|1 ; send1 ok|exc:<Class> ; send2 … ; close ok|exc:<Class> ; close-waited 0|some|timeout ; second … ;
+           inner-closed ; close-emitted <type:len …> (records handed to the wrapped transport by calls that BEGAN after aclose()
+           began: the parked send is not among them) ; peer … ; peer-plain <n> bytes"""
+    role, tls, recs = case["role"], case["tls"], list(case.get("recs") or [])
+    sc = bool(case.get("sc", True))
+    senders = int(case.get("senders", 1))
+    release = case.get("release", "after")
+    delay = int(case.get("delay", 2))
+    shutdown_timeout = float(case.get("shutdown_timeout", 5))
+    peer = e9.Peer("server" if role == "client" else "client", tls, recs, False, reply_close=True)
+    t = SendGateTransport(peer, int(case.get("frag", 0)), max_frag=int(case.get("max_frag", 4096)))
+    ctx = e9.make_context(role, tls)
+    lines: list[str] = []
+    began = {"close": False}
+
+    async def main() -> None:
+        loop = asyncio.get_running_loop()
+        try:
+            tls_tr = await AsyncTLSStreamTransport.wrap(t, ctx, standard_compatible=sc, handshake_timeout=60.0,
+                                                        shutdown_timeout=shutdown_timeout, **_ctx_kwargs(role))
+        except Exception as e:  # noqa: BLE001
+            lines.append("hs exc:" + kind(e))
+            lines.append(f"inner-closed {int(t.closed)}")
+            return
+        lines.append("hs ok")
+        got = 0
+        while got < sum(recs):
+            d = await tls_tr.recv(65536)
+            if not d:
+                break
+            got += len(d)
+
+        async def sender(i: int, n: int) -> None:
+            try:
+                await tls_tr.send_all(send_payload(i, n))
+                lines.append(f"send{i} ok")
+            except Exception as e:  # noqa: BLE001
+                lines.append(f"send{i} exc:" + kind(e))
+
+        async def closer() -> None:
+            t0 = loop.time()
+            try:
+                await tls_tr.aclose()
+                res = "close ok"
+            except Exception as e:  # noqa: BLE001
+                res = "close exc:" + kind(e)
+            dt = loop.time() - t0
+            lines.append(res)
+            lines.append(f"close-waited {'timeout' if dt >= shutdown_timeout else '0' if dt == 0 else 'some'}")
+
+        t.armed = True
+        tasks = [asyncio.ensure_future(sender(1, int(case.get("size", 1))))]
+        for _ in range(2000):
+            if t.send_is_parked() or tasks[0].done():
+                break
+            await asyncio.sleep(0)
+        if senders >= 2:
+            tasks.append(asyncio.ensure_future(sender(2, int(case.get("size2", 3)))))
+            for _ in range(4):
+                await asyncio.sleep(0)
+        lines.append(f"send-parked {int(t.send_is_parked())}")
+        t.phase = "closing"
+        began["close"] = True
+        ct = asyncio.ensure_future(closer())
+        tasks.append(ct)
+        for _ in range(delay):
+            await asyncio.sleep(0)
+        if release == "after":
+            t.release_send()
+        _, pending = await asyncio.wait(set(tasks), timeout=shutdown_timeout * 2 + 200)
+        for p in pending:
+            lines.append("hang " + ("aclose" if p is ct else "send_all") + " still pending")
+            p.cancel()
+        if pending:
+            await asyncio.gather(*pending, return_exceptions=True)
+        for p in tasks:
+            if p.done() and not p.cancelled() and p.exception() is not None:
+                lines.append("main-exc " + kind(p.exception()))     # type: ignore[arg-type]
+        try:
+            await tls_tr.aclose()
+            lines.append("second ok")
+        except Exception as e:  # noqa: BLE001
+            lines.append("second exc:" + kind(e))
+        lines.append(f"inner-closed {int(t.closed)}")
+        lines.append(f"closing {int(tls_tr.is_closing())}")
+
+    try:
+        out, _loop = env.run(main, max_turns=int(case.get("max_turns", 60000)))
+    except env.Stuck as e:
+        lines.append("hang " + str(e))
+        out = ("ok", None)
+    if out[0] == "exc":
+        lines.append("main-exc " + kind(out[1]))
+    peer.pump()
+    peer.read_reader()
+    emitted = b"".join(c[1] for c in t.calls if c[0] == "closing" and c[2] == "done")
+    recs_out = e9.parse_records(emitted)
+    lines.append("close-emitted " + (" ".join(f"{ty}:{e - s}" for ty, s, e in recs_out) or "-")
+                 + (" ragged-tail" if recs_out and recs_out[-1][2] != len(emitted) else ""))
+    lines.append("peer " + (",".join(peer.got) or "-"))
+    lines.append(f"peer-plain {len(peer.got_plain)}")
     return lines, {}
